@@ -67,6 +67,9 @@ type Batch struct {
 	// keep the holes of the records' absolute offsets (offset - first offset),
 	// as the log cleaner writes a compacted format-1 wrapper; default: 0..n-1.
 	SparseInner bool `json:"sparse_inner,omitempty"`
+	// SparseShift (encode only, with SparseInner): added to every relative inner offset: the first record(s) of the
+	// original wrapper were cleaned away too, the remaining ones keep their distance to the original first offset.
+	SparseShift int64 `json:"sparse_shift,omitempty"`
 	// CorruptCRC flips a bit of the checksum (encode only).
 	CorruptCRC bool `json:"corrupt_crc,omitempty"`
 	// Attributes as found on the wire (decode only).
@@ -178,7 +181,7 @@ func (b *Batch) encode(w *Writer) error {
 			if b.RelativeInner {
 				off = int64(i)
 				if b.SparseInner {
-					off = b.Records[i].Offset - b.Records[0].Offset
+					off = b.Records[i].Offset - b.Records[0].Offset + b.SparseShift
 				}
 			}
 			encodeMessage(inner, b.Magic, 0, off, &b.Records[i], false)
